@@ -7,6 +7,25 @@ use crustabri::io::{AspartixReader, Iccma23Reader, InstanceReader};
 pub enum Built {
     U(AAFramework<usize>, Vec<usize>),
     S(AAFramework<String>, Vec<String>),
+    /// labels of a type whose `Hash` is much coarser than its `Eq` (all `LabelType` asks for is
+    /// `Clone + Debug + Display + Eq + Hash`): distinct labels collide in every hash table
+    C(AAFramework<CoarseLabel>, Vec<CoarseLabel>),
+}
+
+#[derive(Clone, Debug, PartialEq, Eq, PartialOrd, Ord)]
+pub struct CoarseLabel {
+    pub source: u8,
+    pub name: usize,
+}
+impl std::hash::Hash for CoarseLabel {
+    fn hash<H: std::hash::Hasher>(&self, state: &mut H) {
+        state.write_u8((self.name % 3) as u8);
+    }
+}
+impl std::fmt::Display for CoarseLabel {
+    fn fmt(&self, f: &mut std::fmt::Formatter<'_>) -> std::fmt::Result {
+        write!(f, "s{}n{}", self.source, self.name)
+    }
 }
 
 pub fn order_from_keys(n: usize, keys: &[u8]) -> Vec<usize> {
@@ -56,6 +75,16 @@ pub fn build(case: &GraphCase) -> Built {
     let g = &case.g;
     let n = g.n;
     match &case.pres {
+        Pres::Direct { offset: 252, order_keys } => {
+            let labels: Vec<CoarseLabel> = (0..n).map(|i| CoarseLabel { source: (i % 4) as u8, name: i / 4 }).collect();
+            let order = order_from_keys(n, order_keys);
+            let decl: Vec<CoarseLabel> = order.iter().map(|&i| labels[i].clone()).collect();
+            let mut af = AAFramework::new_with_argument_set(ArgumentSet::new_with_labels(&decl));
+            for (a, b) in &g.att {
+                af.new_attack(&labels[*a as usize], &labels[*b as usize]).expect("valid attack");
+            }
+            Built::C(af, labels)
+        }
         Pres::Direct { offset, order_keys } => {
             // offsets 253-255 stand for label ranges that straddle isize::MAX, 2^32 and end at usize::MAX:
             // labels are opaque to the library, whatever their magnitude
@@ -173,6 +202,11 @@ macro_rules! with_built {
                 $body
             }
             $crate::build::Built::S($af, $labels) => {
+                let $af = &$af;
+                let $labels = &$labels[..];
+                $body
+            }
+            $crate::build::Built::C($af, $labels) => {
                 let $af = &$af;
                 let $labels = &$labels[..];
                 $body
